@@ -519,6 +519,7 @@ func Run(c *hx.Ctx) error {
 	cacheOps(c, rng, thorough)
 	bootOps(c, stmts)
 	flightOps(c)
+	metaHTTPOps(c)
 	if thorough && c.Arg("blackbox", "1") != "0" {
 		bbEnv := newEnv(baseWorld(""), cfgSpec{pprof: true, ext: true}, false)
 		if err := blackbox(c, bbEnv.liveRoutes()); err != nil {
